@@ -10,6 +10,7 @@
    (known/C12.json -> LWGen.KnownGen).  All arguments range over all of Z. *)
 From Coq Require Import List ZArith Bool String.
 From LW Require Import Base.Outcome Band.Types Band.Lookup Band.Regional Band.Rx1Spec Band.Rx1Checks Band.Rx1BaseProofs Band.Rx1Proofs.
+From LW Require Import Band.AddChannelProofs.
 From LWGen Require Import BandGen KnownGen.
 Import ListNotations.
 Open Scope Z_scope.
@@ -72,6 +73,24 @@ Proof.
   intros c Hc reg Hreg i u Hu. apply rx1_channel_ok_spec. now apply rx1_channel.
 Qed.
 Print Assumptions C12_rx1_channel.
+
+(* ... and this survives every history of AddChannel(frequency, MinDR, MaxDR) calls
+   (any frequencies incl. repeated ones, any DR ranges; [add_channels] = the model of the
+   calls, [with_tables] = the band object carrying the resulting channel lists): for every
+   uplink channel of the resulting object the RX1 channel index is an EXISTING downlink
+   channel (GetDownlinkChannel succeeds) whose frequency is the RX1 frequency obtained from
+   the uplink frequency *)
+Theorem C12_rx1_channel_after_add_channels : forall c, In c band_configs ->
+  forall reg, region_of (c_name c) = Some reg -> forall ops : list (Z * Z * Z),
+  let t' := fst (add_channels (c_tab c) ops) in
+  let c' := with_tables c t' in
+  forall i u, zindex (t_up t') i = Ok u ->
+  exists d, get_rx1_channel_index c' i = Ok (spec_rx1_channel reg i)
+            /\ get_downlink_channel t' (spec_rx1_channel reg i) = Ok d
+            /\ get_rx1_frequency c' (ch_freq u) = Ok (ch_freq d)
+            /\ (match reg with RUS915 | RAU915 | RCN470 => True | _ => ch_freq d = ch_freq u end).
+Proof. exact rx1_channel_after_add_channels. Qed.
+Print Assumptions C12_rx1_channel_after_add_channels.
 
 (* ping-slot frequency: the region's fixed frequency, or hopping over the 8 downlink
    channels by (DevAddr + floor(beacon_time / 128 s)) mod 8; all DevAddr >= 0 and all
